@@ -355,12 +355,12 @@ def check_C11(run):
     run.build()
     suites = [
         dict(name='fault-big', consts=dict(Keys='{1}', MaxTs='2', Sizes='{"s", "e4k+"}'), genlen=3,
-             acts=['write', 'close_active'], nkeys=1, sample=(1, 6) if q else (1, 1)),
+             acts=['write', 'close_active'], nkeys=1, sample=(1, 8) if q else (1, 1)),
         dict(name='fault-1k', consts=dict(Keys='{1}', MaxTs='2'), genlen=4,
              acts=['write', 'delete', 'close_active', 'restore_active', 'create_active', 'force_update'], nkeys=1,
-             sample=(1, 50) if q else (1, 4)),
+             sample=(1, 150) if q else (1, 4)),
         dict(name='fault-2k', consts=dict(Keys='{1, 2}', MaxTs='2'), genlen=5,
-             acts=['write', 'delete', 'close_active', 'create_active'], nkeys=2, sample=(1, 1500) if q else (1, 40)),
+             acts=['write', 'delete', 'close_active', 'create_active'], nkeys=2, sample=(1, 5000) if q else (1, 40)),
     ]
     total_exec = 0
     by_plan = {}
